@@ -233,6 +233,52 @@ fn run_case(which: &'static str, c: Case, seed: u64) -> Result<(), String> {
             Ok(())
         })??;
     }
+    // ---- the _mut try variants incl. the control wrapper, with a failing set (C07, C09)
+    if c.n > 0 {
+        for variant in 0..2 {
+            let cc = Case { n: c.n, accs: c.accs.clone(), edges: c.edges.clone(), desc: c.desc.clone() };
+            let label = format!("try_for_each_concurrent{}_mut on {}", if variant == 1 { "_control" } else { "" }, c.desc);
+            guarded(which, label, move || {
+                let (mut g, _ids) = build(&cc);
+                let n = cc.n;
+                let mut rng = Lcg(seed ^ 0x4242 ^ variant as u64);
+                // fail leaves preferably: functions without successors among the user edges
+                let failing: Vec<usize> = (0..n).filter(|i| !cc.edges.iter().any(|(a, _)| a == i) && rng.below(2) == 0).collect();
+                let started = Rc::new(RefCell::new(Vec::<usize>::new()));
+                let fl = failing.clone();
+                let (outcome, errs, is_break): (fn_graph::StreamOutcome<()>, Vec<usize>, bool) = if variant == 0 {
+                    let st = started.clone();
+                    match futures::executor::block_on(g.try_for_each_concurrent_mut(None, move |f: &mut Acc| {
+                        let (st, id, fail) = (st.clone(), f.id, fl.contains(&f.id));
+                        async move { st.borrow_mut().push(id); YieldN(1).await; if fail { Err(id) } else { Ok(()) } }
+                    })) { Ok(o) => (o, vec![], false), Err((o, e)) => (o, e, true) }
+                } else {
+                    let st = started.clone();
+                    match futures::executor::block_on(g.try_for_each_concurrent_control_mut(None, move |f: &mut Acc| {
+                        let (st, id, fail) = (st.clone(), f.id, fl.contains(&f.id));
+                        async move { st.borrow_mut().push(id); YieldN(1).await; if fail { std::ops::ControlFlow::Break(id) } else { std::ops::ControlFlow::Continue(()) } }
+                    })) { std::ops::ControlFlow::Continue(o) => (o, vec![], false), std::ops::ControlFlow::Break((o, e)) => (o, e, true) }
+                };
+                let started = started.borrow().clone();
+                let mut failed_started: Vec<usize> = failing.iter().cloned().filter(|i| started.contains(i)).collect();
+                failed_started.sort();
+                let mut errs_sorted = errs.clone(); errs_sorted.sort();
+                if which == "C07" || which == "all" {
+                    if errs_sorted != failed_started { return Err(format!("C07: variant {variant}: errors {errs_sorted:?} vs failed functions {failed_started:?} ({})", cc.desc)); }
+                    if !failed_started.is_empty() && !is_break { return Err(format!("C07: variant {variant}: Ok/Continue returned although {failed_started:?} failed ({})", cc.desc)); }
+                }
+                if which == "C09" || which == "all" {
+                    let proc_: Vec<usize> = outcome.fn_ids_processed.iter().map(|i| i.index()).collect();
+                    if proc_ != started { return Err(format!("C09: variant {variant}: processed {proc_:?} vs started {started:?} ({})", cc.desc)); }
+                    let all = proc_.len() == n;
+                    if all != (outcome.state == StreamOutcomeState::Finished) {
+                        return Err(format!("C09: variant {variant}: state {:?} although {} of {n} functions were processed, not processed {:?} ({})", outcome.state, proc_.len(), outcome.fn_ids_not_processed, cc.desc));
+                    }
+                }
+                Ok(())
+            })??;
+        }
+    }
     Ok(())
 }
 
